@@ -70,7 +70,7 @@ pub fn gen(seed: u64, idx: u64, _tier: Tier) -> Case {
 
 pub fn run(case: &Case, known: &BTreeSet<String>) -> Outcome {
     if case.mode == "stale-handle" {
-        return crate::stale::run(case, crate::stale::Judge { property: "C07", image: false, bystanders: true });
+        return crate::stale::run(case, crate::stale::Judge { property: "C07", image: false, bystanders: true, refusals: false });
     }
     let mut o = runner::run_history(case, &flags(), known);
     let with_handle = case.ops.iter().any(|op| matches!(op, crate::ops::Op::HOpen { .. } | crate::ops::Op::HCreate { .. } | crate::ops::Op::HCreateNew { .. }));
